@@ -20,7 +20,7 @@ CLAIMED = {
    technique=TECH),
  "C05": dict(
    category="model_checking",
-   text="verify_tx_amt_proofs on all-explicit 1-input/2-output transactions with symbolic asset ids (every equal/unequal pattern) and amount triples incl. 64-bit carry cases (two quick, two more thorough): Ok exactly when inputs equal outputs per asset, else BalanceCheckFailed; zero-value rule (admissible and skipped on OP_RETURN scripts, rejected on spendable ones); wrong-length spent-output list; explicit issuance pseudo-inputs (token-only quick, asset-only thorough; amounts symbolic, ids stubbed): Ok exactly when issued amounts equal the outputs; required-proof rules: confidential value without range proof => RangeProofMissing(i), confidential asset without surjection proof (also with an explicit value) => SurjectionProofMissing(i), null asset/value => error. Found that zero-value OP_RETURN outputs made every transaction fail (fixed).",
+   text="verify_tx_amt_proofs on all-explicit 1-input/2-output transactions with symbolic asset ids (every equal/unequal pattern) and amount triples incl. 64-bit carry cases (two quick, two more thorough): Ok exactly when inputs equal outputs per asset, else BalanceCheckFailed; zero-value rule (admissible and skipped on OP_RETURN scripts, rejected on spendable ones); wrong-length spent-output list; explicit issuance pseudo-inputs (thorough tier: token-only and asset-only shapes; amounts symbolic, ids stubbed): Ok exactly when issued amounts equal the outputs; required-proof rules: confidential value without range proof => RangeProofMissing(i), confidential asset without surjection proof (also with an explicit value) => SurjectionProofMissing(i), null asset/value => error. Found that zero-value OP_RETURN outputs made every transaction fail (fixed).",
    design_ref="DESIGN.md §7.4 C05",
    note="libsecp replaced by a contract model: unblinded generators of distinct tags are independent, so the commitment equation holds iff per-asset sums agree (128-bit); Script::is_provably_unspendable is stubbed by constants in the balance harnesses and checked against its definition separately. NOT decided: asset+token issuance together, confidential balance, soundness/binding of real range and surjection proofs (libsecp), more inputs/outputs." + TRUST,
    technique=TECH),
